@@ -101,3 +101,17 @@ def corr_lines(lines, variant="plain"):
             info = {"kind": line.split()[0]}
             mism.append({"cmd": line, "impl": a[:600], "model": b[:600], "why": why, "info": info})
     return {"cases": len(lines), "stats": st, "dist": {}, "mismatches": mism, "cmdfile": None, "lines": lines, "out_impl": out1, "out_model": out2}
+
+
+def trim_violations(viol, n=20, per_probe=2):
+    """keep at most `n` violations for the report: those without a (possibly known) probe first, then at most `per_probe` of each probe,
+    so that many hits of one recorded finding cannot crowd out a different violation"""
+    plain = [v for v in viol if not v.get("probe")]
+    seen, probed = {}, []
+    for v in viol:
+        pr = v.get("probe")
+        if pr:
+            seen[pr] = seen.get(pr, 0) + 1
+            if seen[pr] <= per_probe:
+                probed.append(v)
+    return (plain + probed)[:n]
